@@ -57,8 +57,10 @@ package mqtt
 //@   loop 1 iter[C09] backoff: evCount("time.After") == 1 && evArg[time.Duration]("time.After", 0, 0) == waited &&
 //@        reconnWait_next == ite(2*waited > wmax, wmax, 2*waited) &&
 //@        evArg[<-chan time.Time]("select", evCount("select")-1, 0) == evRet[<-chan time.Time]("time.After", 0, 0) && evRet[int]("select", evCount("select")-1, 0) == 0
-//@   loop 1 iter[C09,C17] same_connect: evCount("(*RetryClient).Connect") <= 1 && (evCount("(*RetryClient).Connect") == 1 ==>
+//@   loop 1 iter[C01,C09,C17] same_connect: evCount("(*RetryClient).Connect") <= 1 && (evCount("(*RetryClient).Connect") == 1 ==>
 //@        evArg[*RetryClient]("(*RetryClient).Connect", 0, 0) == c.RetryClient && evArg[string]("(*RetryClient).Connect", 0, 2) == clientID &&
+//@        evCount("(*ReconnectOptions).timeoutContext") == 1 && evArg[context.Context]("(*RetryClient).Connect", 0, 1) == evRet[context.Context]("(*ReconnectOptions).timeoutContext", 0, 0) &&
+//@        evArg[*ReconnectOptions]("(*ReconnectOptions).timeoutContext", 0, 0) == c.options &&
 //@        sameSlice(evArg[[]ConnectOption]("(*RetryClient).Connect", 0, 3), opts) &&
 //@        evCount("(*RetryClient).SetClient") == 1 && evIndex("(*RetryClient).SetClient", 0) < evIndex("(*RetryClient).Connect", 0) &&
 //@        evArg[*BaseClient]("(*RetryClient).SetClient", 0, 2) == evRet[*BaseClient]("Dialer.DialContext", 0, 0))
